@@ -7,6 +7,7 @@ CONSTANTS
   Plus = "logaddexp"
   Times = "add"
   LeafKind = "log"
+  MaxParamT = 6
   Tag = "mk_logaddexp_q"
 INVARIANT Inv_FoldInputs
 INVARIANT Emit
